@@ -1,14 +1,52 @@
+//! Native driver around the playground entry point (oal_wasm::compile) of /repo.
+//! Default: compile stdin once, print OK/ERR + body.
+//! WASMDRV_REPEAT=n: compile the same text n times in this process, then once more on a
+//! second thread and once after compiling an unrelated program; print `repeat same=<bool>`
+//! (byte equality of all results) followed by the first result.
 use std::io::Read;
+
+fn once(input: &str) -> (bool, String) {
+    let r = oal_wasm::compile(input);
+    if r.error.is_empty() {
+        (true, r.api)
+    } else {
+        (false, r.error)
+    }
+}
 
 fn main() {
     let mut input = String::new();
     std::io::stdin().read_to_string(&mut input).unwrap();
-    let r = oal_wasm::compile(&input);
-    if r.error.is_empty() {
-        println!("OK");
-        print!("{}", r.api);
-    } else {
-        println!("ERR");
-        print!("{}", r.error);
+    if let Ok(n) = std::env::var("WASMDRV_REPEAT") {
+        let n: usize = n.parse().unwrap_or(3);
+        let first = once(&input);
+        let mut same = true;
+        let mut which = String::new();
+        for i in 1..n {
+            if once(&input) != first {
+                same = false;
+                which = format!("compilation #{} differs from #1", i + 1);
+                break;
+            }
+        }
+        // something else compiled in between (a different program with functions, rec and references)
+        let _ = once("let f x = rec r { 'a x, 'b [r] };\nlet @n = { 'k f num };\nres /other on get -> <f @n>;\n");
+        if same && once(&input) != first {
+            same = false;
+            which = "differs after an unrelated compilation in the same process".into();
+        }
+        let text = input.clone();
+        let t = std::thread::spawn(move || once(&text)).join().unwrap();
+        if same && t != first {
+            same = false;
+            which = "differs on a second thread".into();
+        }
+        println!("repeat same={} {}", same, which);
+        println!("{}", if first.0 { "OK" } else { "ERR" });
+        print!("{}", first.1);
+        return;
     }
+    let r = once(&input);
+    println!("{}", if r.0 { "OK" } else { "ERR" });
+    print!("{}", r.1);
 }
